@@ -156,10 +156,13 @@ func ghostTimerPrefix(kg uint16) []byte { return []byte{byte(kg >> 8), byte(kg),
 //@   ensures blocking(result) == (c != nil && !has(c.srIDs, senderID))
 
 // HandleEvent reads the alignment state under the read lock and waits outside it.
+// Every event an operator accepts - keyed events, watermarks, barriers, source-complete - first
+// passes the alignment gate of its sender (alignSender); only the "not ready" rejection skips it.
 //@ func Operator.HandleEvent
 //@   property C02
 //@   nosafety
 //@   requires req != nil
+//@   ensures called(alignSender) || called(NewError)
 
 // ---- table ownership (C09). The shared table may be deleted only if this
 // partition's range covers the table's whole range, or every neighbour answered
